@@ -2,6 +2,7 @@ import BqVerif.Proofs.CircTimeline
 import BqVerif.Proofs.CircTimeline2
 import BqVerif.Proofs.CircHistory
 import BqVerif.Proofs.Trace
+import BqVerif.Proofs.CircRel
 /-! # C04 — Circuit editing calls have their documented effect on program order -/
 namespace BqVerif.C04
 open BqVerif.Circ
@@ -52,6 +53,32 @@ theorem C04_same_timelines_same_unitary {M : Type} [Monoid M] (sem : Op → M)
     (l1 l2 : List Op) (h1 : ∀ o ∈ l1, o.loc ≠ []) (h2 : ∀ o ∈ l2, o.loc ≠ [])
     (hp : ∀ q, proj q l1 = proj q l2) : (l1.map sem).prod = (l2.map sem).prod :=
   trace_equiv sem hcomm l1 l2 h1 h2 hp
+
+/-- **straighten** is validated relationally (the documentation leaves the new layout open): ANY
+grid accepted by the validator satisfies `Inv` and denotes the same unitary, in every semantics. -/
+theorem C04_straighten_same_unitary {M : Type} [Monoid M] (sem : Op → M)
+    (hcomm : ∀ a b, Indep a b → sem a * sem b = sem b * sem a)
+    (c c' : Circ) (net : Int) (hinv : c.Inv) (h : validStraighten c c' net = none) :
+    c'.Inv ∧ den sem c'.iter = den sem c.iter :=
+  validStraighten_sound sem hcomm c c' net hinv h
+
+/-- **fold**: ANY grid accepted by the validator denotes the same unitary as before the call,
+in every semantics that reads a block operation as the ordered product of its contents (S3). -/
+theorem C04_fold_same_unitary {M : Type} [Monoid M] (sem : Op → M)
+    (hcomm : ∀ a b, Indep a b → sem a * sem b = sem b * sem a)
+    (b : Blocks) (hblock : ∀ o inner, expandOp b o = some inner → sem o = den sem inner)
+    (c : Circ) (r : Region) (c' : Circ) (pt : Nat × Nat) (hinv : c.Inv)
+    (h : validFold b c r c' pt = none) :
+    c'.Inv ∧ den sem c'.iter = den sem c.iter :=
+  validFold_sound sem hcomm b hblock c r c' pt hinv h
+
+-- non-vacuity: a fold accepted by the validator (2 qubits; X@0, CNOT@(0,1) folded into block 1000)
+example :
+    let body : Circ := ⟨[2, 2], [[⟨1, [], [0], [2]⟩], [⟨6, [], [0, 1], [2, 2]⟩]]⟩
+    let b : Blocks := [(1000, body)]
+    let c : Circ := ⟨[2, 2], [[⟨1, [], [0], [2]⟩], [⟨6, [], [0, 1], [2, 2]⟩]]⟩
+    let c' : Circ := ⟨[2, 2], [[⟨1000, [], [0, 1], [2, 2]⟩]]⟩
+    validFold b c [(0, (0, 1)), (1, (1, 1))] c' (0, 0) = none ∧ c.invB = true := by decide
 
 /-- every editing history keeps the representation well-formed, so "the unitary of the circuit" is
 well defined independently of the linearisation the iterator picks -/
